@@ -409,10 +409,36 @@ func injectTable(c *core.Ctx, maxLen int) (rs rows, runs int, undecided string) 
 							metas = nil
 							for i, k := range lst {
 								m := absint.NewTok(fmt.Sprintf("M%d", i), k)
+								// every candidate other than the holder lives at one and the same address (zero-size
+								// components do), and is a wrapper whose own type does not fit the field while the
+								// definition it replaced would: identity and version are decided by IsSelf and Value only
+								mb := absint.NewTok(m.ID+".Base", "field")
+								mb.Fields["Value"] = absint.NewTok(m.ID+".Base.Value", "field")
+								mb.Fields["Type"] = absint.NewTok(m.ID+".Base.Type", "type")
+								addr := int64(100)
+								if k == "self" {
+									addr = 7
+								}
+								mb.Fields["originAddress"] = absint.Int(addr)
+								m.Fields["Base"] = mb
 								metas = append(metas, m)
 								in.Elems = append(in.Elems, m)
 							}
 							t.invokeN["Kind"] = func(ip *absint.Interp, args []absint.Value) absint.Value { return absint.Int(kind) }
+							t.invokeN["Elem"] = func(ip *absint.Interp, args []absint.Value) absint.Value { return absint.NewTok("elem(fieldType)", "type") }
+							t.invokeN["AssignableTo"] = func(ip *absint.Interp, args []absint.Value) absint.Value {
+								ty, _ := args[0].(*absint.Tok)
+								return absint.Bool(ty != nil && strings.Contains(ty.ID, "ProxyMeta"))
+							}
+							for _, nm := range []string{"Pointer", "UnsafeAddr"} {
+								t.ext["(reflect.Value)."+nm] = func(ip *absint.Interp, args []absint.Value) absint.Value {
+									v, _ := args[0].(*absint.Tok)
+									if v != nil && strings.HasPrefix(v.ID, "H.") {
+										return absint.Int(7)
+									}
+									return absint.Int(100)
+								}
+							}
 							t.callee[isReq] = func(ip *absint.Interp, args []absint.Value) absint.Value { return absint.Bool(required) }
 							t.callee[isSelf] = func(ip *absint.Interp, args []absint.Value) absint.Value {
 								m, ok := args[1].(*absint.Tok)
